@@ -81,16 +81,60 @@ Definition lsb0_window (d : bits) (s e : Z) : res (Z * Z) :=
   do k <- offset_slice_indices_lsb0 (mkslice (Some s) (Some e) None) (zlen d);
   validate_slice d (s_start k) (s_stop k).
 
+(* _findall_lsb0: search chunks starting near the end and moving back (fix D15c/D15d):
+   hi = msb0_end - len(bs); while hi >= msb0_start: lo = max(msb0_start, hi - increment + 1);
+   found = matches starting in [lo, hi]; pop from the end ...; hi = lo - 1 *)
+Fixpoint emit_lsb0 (d p : bits) (l : list Z) (count : option Z) (ba : bool) (c : Z) : list Z * Z * bool :=
+  match l with
+  | [] => ([], c, false)
+  | q :: l' =>
+      if (match count with Some k => c >=? k | None => false end) then ([], c, true) else
+      let lsb0_pos := zlen d - q - zlen p in
+      if negb ba || (lsb0_pos mod 8 =? 0) then
+        let '(r, c', stop) := emit_lsb0 d p l' count ba (c + 1) in (lsb0_pos :: r, c', stop)
+      else emit_lsb0 d p l' count ba c
+  end.
+
+Fixpoint lsb0_chunks (fuel : nat) (d p : bits) (ms increment hi : Z)
+         (count : option Z) (ba : bool) (c : Z) : res (list Z) :=
+  match fuel with
+  | O => Err OutOfFuel
+  | S f =>
+      if hi >=? ms then
+        let lo := Z.max ms (hi - increment + 1) in
+        do found <- findall_store_msb0 d p lo (hi + zlen p) false;
+        let '(out, c', stopped) := emit_lsb0 d p (rev found) count ba c in
+        if stopped then Ok out else
+        do rest <- lsb0_chunks f d p ms increment (lo - 1) count ba c'; Ok (out ++ rest)
+      else Ok []
+  end.
+
+Definition findall_lsb0 (d p : bits) (s e : Z) (count : option Z) (ba : bool) : res (list Z) :=
+  if s <=? e then
+    do2 (ms, me) <- lsb0_window d s e;
+    let increment := Z.max 8192 (zlen p * 80) in
+    lsb0_chunks (S (length d)) d p ms increment (me - zlen p) count ba 0
+  else Err AssertionError.
+
 Definition find_lsb0 (d p : bits) (s e : Z) (ba : bool) : res (option Z) :=
   if s <=? e then
     do2 (ms, me) <- lsb0_window d s e;
-    do r <- rfind_msb0 d p ms me ba;
+    if ba then   (* fix D15b: the lsb0 position must be aligned *)
+      do l <- findall_lsb0 d p s e (Some 1) true;
+      Ok (match l with q :: _ => Some q | [] => None end)
+    else
+    do r <- rfind_msb0 d p ms me false;
     Ok (match r with Some q => Some (zlen d - q - zlen p) | None => None end)
   else Err AssertionError.
 Definition rfind_lsb0 (d p : bits) (s e : Z) (ba : bool) : res (option Z) :=
   if s <=? e then
     do2 (ms, me) <- lsb0_window d s e;
-    do r <- find_msb0 d p ms me ba;
+    if ba then
+      do l <- findall_store_msb0 d p ms me false;
+      Ok (match filter (fun q => (zlen d - q - zlen p) mod 8 =? 0) l with
+          | q :: _ => Some (zlen d - q - zlen p) | [] => None end)
+    else
+    do r <- find_msb0 d p ms me false;
     Ok (match r with Some q => Some (zlen d - q - zlen p) | None => None end)
   else Err AssertionError.
 
@@ -110,50 +154,6 @@ Definition take_count {A} (count : option Z) (l : list A) : list A :=
 
 Definition findall_msb0 (d p : bits) (s e : Z) (count : option Z) (ba : bool) : res (list Z) :=
   do l <- findall_store_msb0 d p s e ba; Ok (take_count count l).
-
-(* _findall_lsb0: search chunks starting near the end and moving back *)
-Fixpoint lsb0_chunks (fuel : nat) (d p : bits) (ms me increment buffersize pos : Z)
-         (count : option Z) (ba : bool) (c : Z) : res (list Z) :=
-  match fuel with
-  | O => Err OutOfFuel
-  | S f =>
-      do found <- findall_store_msb0 d p pos (pos + buffersize) false;
-      match found with
-      | [] => if pos =? ms then Ok [] else
-              lsb0_chunks f d p ms me increment buffersize (Z.max ms (pos - increment)) count ba c
-      | _ =>
-          (* pop from the end of found *)
-          let fix emit (l : list Z) (c : Z) : list Z * Z * bool :=
-              match l with
-              | [] => ([], c, false)
-              | q :: l' =>
-                  match count with
-                  | Some k => if c >=? k then ([], c, true) else
-                      let lsb0_pos := zlen d - q - zlen p in
-                      let '(r, c', stop) := emit l' (c + 1) in
-                      ((if negb ba || (lsb0_pos mod 8 =? 0) then lsb0_pos :: r else r), c', stop)
-                  | None =>
-                      let lsb0_pos := zlen d - q - zlen p in
-                      let '(r, c', stop) := emit l' (c + 1) in
-                      ((if negb ba || (lsb0_pos mod 8 =? 0) then lsb0_pos :: r else r), c', stop)
-                  end
-              end in
-          let '(out, c', stopped) := emit (rev found) c in
-          if stopped then Ok out else
-          let pos' := Z.max ms (pos - increment) in
-          if pos' =? ms then Ok out
-          else do rest <- lsb0_chunks f d p ms me increment buffersize pos' count ba c'; Ok (out ++ rest)
-      end
-  end.
-
-Definition findall_lsb0 (d p : bits) (s e : Z) (count : option Z) (ba : bool) : res (list Z) :=
-  if s <=? e then
-    do2 (ms, me) <- lsb0_window d s e;
-    let increment := Z.max 8192 (zlen p * 80) in
-    let buffersize := Z.min (increment + zlen p) (me - ms) in
-    let pos := Z.max ms (me - buffersize) in
-    lsb0_chunks (S (length d)) d p ms me increment buffersize pos count ba 0
-  else Err AssertionError.
 
 Definition bs_findall (lsb0 : bool) (d p : bits) (start stop : option Z) (count : option Z) (ba : bool) : res (list Z) :=
   if (match count with Some c => c <? 0 | None => false end) then Err ValueError else
